@@ -84,6 +84,7 @@ type Obs struct {
 	ID          string
 	Class       string // ok | err | panic | hang | died
 	ErrText     string
+	LateStep    int // 0, or the request (1..3) after which the client was held for 300 ms before it listened
 	Frames      []string // client -> server plain TL bodies, as the server received them
 	Replies     []string // server -> client plain TL bodies
 	ClientKey   string
@@ -226,6 +227,20 @@ func sessionFile(path, addr string) string {
 
 var keepAlive []interface{} // servers and clients of finished cases: never closed inside a worker (see package comment)
 
+var lateMu sync.Mutex
+
+// goid: the number of the calling goroutine (first line of its stack trace)
+func goid() int64 {
+	var buf [64]byte
+	n := runtime.Stack(buf[:], false)
+	f := strings.Fields(string(buf[:n]))
+	if len(f) < 2 {
+		return -1
+	}
+	id, _ := strconv.ParseInt(f[1], 10, 64)
+	return id
+}
+
 func runCase(c *Case) Obs {
 	t0 := time.Now()
 	o := Obs{ID: c.ID}
@@ -260,9 +275,41 @@ func runCase(c *Case) Obs {
 		pv       interface{}
 	}
 	done := make(chan res, 1)
+	// a client that is LATE: in one conformant exchange out of four the goroutine that runs the key exchange is held
+	// for 300 ms between writing one of its three requests and receiving the answer (yield point "prerecv", build tag
+	// verif) - a goroutine the scheduler did not run for a while.  The answer is there long before it listens; the
+	// exchange has to complete all the same.
+	lateStep := 0
+	if fault(c) == nil {
+		h := 0
+		for _, ch := range c.ID {
+			h = h*31 + int(ch)
+		}
+		if h%4 == 0 {
+			lateStep = 1 + (h/4)%3
+		}
+	}
+	o.LateStep = lateStep
 	go func() {
 		var r res
+		me := goid()
+		seen := 0
+		if lateStep > 0 {
+			lateMu.Lock()
+			mtproto.VerifYieldHook = func(point string, id int64) {
+				if point == "prerecv" && goid() == me {
+					seen++
+					if seen == lateStep {
+						time.Sleep(300 * time.Millisecond)
+					}
+				}
+			}
+		}
 		r.panicked, r.pv = vc.Catch(func() { r.err = m.CreateConnection() })
+		if lateStep > 0 {
+			mtproto.VerifYieldHook = nil
+			lateMu.Unlock()
+		}
 		done <- r
 	}()
 	watchdog := 20 * time.Second
@@ -985,7 +1032,7 @@ func writeOutputs(cs []Case, obs []Obs, outdir string) {
 			dash(o.SrvKey), dash(o.SrvKeyID), dash(o.SrvSalt), dash(o.SrvHash1),
 			strconv.Itoa(o.EncSeen), strconv.FormatBool(o.EncOpened), dash(o.EncPacket), fj, dash(tail(o.ErrText, 200)), dash(o.Rejected),
 			dash(o.PostReq), strconv.FormatBool(o.AfterEncrypted), strconv.Itoa(o.PostPlain), strconv.FormatBool(o.HangRetried),
-			strconv.Itoa(o.StoreCalls), dash(o.AfterChatter), dash(o.PlainChatterOK), dash(o.EncNotification))
+			strconv.Itoa(o.StoreCalls), dash(o.AfterChatter), dash(o.PlainChatterOK), dash(o.EncNotification), strconv.Itoa(o.LateStep))
 
 		// model input block
 		k := testKeys[c.Key%len(testKeys)]
